@@ -478,6 +478,8 @@ func runC18(p *plan.Plan, keepLog bool, soloOnly bool) (*plan.Result, *C18Stats)
 		resetSched(len(p.Tasks), p.Schedule, keepLog)
 		sMonitor = c18Monitor
 		var wg sync.WaitGroup
+		sJoin = &wg
+		defer func() { sJoin = nil }()
 		setMode(modeSched)
 		for ti := range p.Tasks {
 			wg.Add(1)
